@@ -69,9 +69,8 @@ func genViewBox(r *rand.Rand, i int) *In {
 	if vb.Nested {
 		vb.PX, vb.PY = coord(r, 0, 60), coord(r, 0, 60)
 		if r.Intn(5) == 0 {
-			// "scroll" must clip like "hidden" (SVG 1.1 §14.3.3) but does not on the unchanged tree:
-			// findings/C18/nested-svg-overflow-scroll.json; not generated
-			vb.Overflow = []string{"hidden", "visible", "auto"}[r.Intn(3)]
+			// "scroll" clips like "hidden" (SVG 1.1 §14.3.3; findings/C18/nested-svg-overflow-scroll.json, repaired)
+			vb.Overflow = []string{"hidden", "visible", "auto", "scroll"}[r.Intn(4)]
 		}
 	}
 	// three probe points inside (and one outside) the viewBox
@@ -214,6 +213,9 @@ func checkViewBox(in *In, res *fw.Result) {
 				return
 			}
 			res.Count("vb_nested_clip_checked", 1)
+			if vb.Overflow == "scroll" {
+				res.Count("vb_nested_scroll_clip_checked", 1)
+			}
 		} else {
 			if found {
 				res.Fail("viewbox-nested-clip", fmt.Sprintf("%s: the nested <svg> has overflow=%q but its content is clipped to the viewport", in.SVG, vb.Overflow))
